@@ -426,6 +426,7 @@ type request struct {
 	r0, r1 int64
 	step   int
 	wide   bool
+	nack   int // id of the NACK packet (= library goroutine) the request belongs to
 
 	in     *inst
 	cand   *orig
